@@ -436,7 +436,7 @@ type execCtx struct {
 
 func groupCfg(job *spec.Job, c *spec.Call, r *spec.Resolution) (simrt.GroupCfg, error) {
 	cfg := simrt.GroupCfg{
-		Adv: r.Adv, AdvSeed: r.AdvSeed, T0: r.T0, Entropy: r.Entropy,
+		Adv: r.Adv, AdvSeed: r.AdvSeed, T0: r.T0, Rate: r.Rate, Entropy: r.Entropy,
 		TickBudget: job.Budgets.Ticks, FrameBudget: job.Budgets.Frame, DepthBudget: job.Budgets.Depth, ByteBudget: job.Budgets.Bytes,
 		PanicAtTick: c.PanicAtTick, RecordPerms: job.RecordPerms, NSites: nSites,
 	}
